@@ -597,3 +597,39 @@ def install_async_bodies(reg):
                2: LoopContract("for model in iterator", fp_loop_inv, lemmas=[("L9.models_of_the_deadlock_program", lambda c: wf_models(A.EnumModels(c.ctl)))])},
         note="BODY verified: the net is reduced by exactly the transitions that leave a retained value, the deadlock program of the reduced net "
              "is built for its own variables, and the callback protocol is followed; call sites use the call-site view (enumeration of ReducedSol)"))
+
+
+    # ------------------------------------------------------------------ trappist_async on a BooleanNetwork (second contract of the same function)
+    from pyvc.externals_aeon import TNetObj
+    from .deps import pn_graph
+
+    def spec_ns_bn(c, ctl):
+        g = pn_graph(T.PNOfNet(c.network))
+        src = z3.If(OptLN.is_none(c.optimize_source_variables), A.SortedNames(A.SrcSetG(g)), OptLN.val(c.optimize_source_variables))
+        return types.SimpleNamespace(variables=A.VarNamesOf(c.network), petri_net=g, problem=c.problem, reverse_time=c.reverse_time,
+                                     ensure_subspace=c.ensure_subspace, avoid_subspaces=c.avoid_subspaces,
+                                     optimize_source_variables=OptLN.some(src), result=ctl)
+
+    def post_bn(c):
+        ctl = solved(c)
+        return [("program." + nm, g) for nm, g in _SPEC["trap_program"](spec_ns_bn(c, ctl)) if nm in names] + [
+            ("callback_fed_the_decoded_models_in_order_until_false",
+             protocol(c, c.on_solution__args, c.on_solution__rets, A.EnumModels(ctl), decode_trap))]
+
+    reg.add(Contract(
+        "biobalm.trappist_core.trappist_async#BooleanNetwork",
+        params=[("network", TNetObj), ("on_solution", E._Callback.param(TSpace)), ("problem", TInt), ("reverse_time", TBool),
+                ("ensure_subspace", OptSpace), ("avoid_subspaces", OptLS), ("optimize_source_variables", OptLN)],
+        defaults=old.defaults, properties=("C09", "C17"),
+        requires=[lambda c: z3.And(0 <= c.problem, c.problem <= 2),
+                  lambda c: z3.Implies(z3.Not(OptSpace.is_none(c.ensure_subspace)), T.wf_space(OptSpace.val(c.ensure_subspace))),
+                  lambda c: z3.Implies(z3.Not(OptLS.is_none(c.avoid_subspaces)), elems_wf(OptLS.val(c.avoid_subspaces)))],
+        ensures=[(nm, (lambda k: (lambda c: dict(post_bn(c))[k]))(nm)) for nm in ["program." + x for x in names] +
+                 ["callback_fed_the_decoded_models_in_order_until_false"]],
+        raises={"RuntimeError": []}, may_raise={"RuntimeError": {}},
+        axioms=P.AX_PLACE + A.AX_MEMNAME + A.AX_SORTED + A.AX_NAMESETS + A.AX_VARNAMES,
+        lemmas=[("L9.models_of_the_trap_program", lambda c: wf_models(A.EnumModels(c.ctl)))],
+        local_types={"ctl": A.TCtl, "variables": A.LNm}, merge_ifs=True,
+        loops={0: LoopContract("for model in iterator", loop_inv, lemmas=[("L9.models_of_the_trap_program", lambda c: wf_models(A.EnumModels(c.ctl)))])},
+        note="the same function for a BooleanNetwork argument: the network is translated (network_to_petrinet, assumed) and the program is "
+             "built for the network's own variable list and the translated net"))
